@@ -59,16 +59,20 @@ def build(b, d):
     it._keep.append(rec)
     nm = d['name']
     empty = P('str:empty', 0)
+    def seen():
+        # what the machine reports about itself to code running inside its actions: (current, next, last) — documented in state_machine.h: the current state is -1 while a
+        # transition is under way (in the route action), the next state is valid in the exit and route actions
+        return (b.call(rec, 'currentState', []), b.call(rec, 'nextState', []), b.call(rec, 'lastState', []))
     for sid in d['states']:
-        en = (lambda ev, sid=sid: b.trace.append(('enter', nm, sid, b.eid(ev)))) if sid in d.get('enter', d['states']) else 0
-        ex = (lambda ev, sid=sid: b.trace.append(('exit', nm, sid, b.eid(ev)))) if sid in d.get('exit', d['states']) else 0
+        en = (lambda ev, sid=sid: b.trace.append(('enter', nm, sid, b.eid(ev), seen()))) if sid in d.get('enter', d['states']) else 0
+        ex = (lambda ev, sid=sid: b.trace.append(('exit', nm, sid, b.eid(ev), seen()))) if sid in d.get('exit', d['states']) else 0
         if not b.call(rec, 'newState', [sid, en, ex, empty]):
             raise AnalysisBroken('newState(%d) refused on a fresh machine' % sid)
     if d.get('init') is not None:
         b.call(rec, 'setInitState', [d['init']])
     for ri, (fr, ev, to, guard, act) in enumerate(d['routes']):
         g = 0 if guard is None else (lambda e, ri=ri, guard=guard: (b.trace.append(('guard', nm, ri, b.eid(e))), int(guard))[1])
-        a = (lambda e, ri=ri: b.trace.append(('action', nm, ri, b.eid(e)))) if act else 0
+        a = (lambda e, ri=ri: b.trace.append(('action', nm, ri, b.eid(e), seen()))) if act else 0
         if not b.call(rec, 'addRoute', [fr, ev, to, g, a, empty]):
             raise AnalysisBroken('addRoute(%d,%d,%d) refused' % (fr, ev, to))
     for hi, (sid, ev, ret) in enumerate(d.get('handlers', ())):
@@ -92,6 +96,7 @@ class RefSM:
     def __init__(self, d, trace):
         self.d, self.trace = d, trace
         self.cur = None
+        self.last = None
         self.running = False
         self.subs = {sid: RefSM(sd, trace) for sid, sd in d.get('subs', {}).items()}
 
@@ -100,11 +105,11 @@ class RefSM:
 
     def enter(self, sid, ev):
         if sid != 0 and sid in self.d.get('enter', self.d['states']):
-            self.trace.append(('enter', self.d['name'], sid, ev))
+            self.trace.append(('enter', self.d['name'], sid, ev, (sid, -1, self.last if self.last is not None else -1)))
 
-    def exit(self, sid, ev):
+    def exit(self, sid, ev, nxt=-1):
         if sid != 0 and sid in self.d.get('exit', self.d['states']):
-            self.trace.append(('exit', self.d['name'], sid, ev))
+            self.trace.append(('exit', self.d['name'], sid, ev, (sid, nxt, self.last if self.last is not None else -1)))
 
     def start(self):
         if self.running:
@@ -162,9 +167,10 @@ class RefSM:
         if target != 0 and target not in self.d['states']:
             return False
         last = self.cur
-        self.exit(last, ev)
+        self.exit(last, ev, target)
+        self.last = last
         if via is not None and self.d['routes'][via][4]:
-            self.trace.append(('action', nm, via, ev))
+            self.trace.append(('action', nm, via, ev, (-1, target, last)))
         self.cur = target
         self.enter(target, ev)
         self.trace.append(('changed', nm, last, target, ev))
@@ -337,3 +343,45 @@ def r8(ctx, prog):
            ('re-entrancy: ' + why if bad is None else 'machine with routes %s, handlers %s%s, events %s%s: %s' %
             (bad[0]['routes'], bad[0].get('handlers'), ', sub-machine in state(s) %s' % sorted(bad[0]['subs']) if bad[0].get('subs') else '', list(bad[1]),
              ' (stop/start before event %d)' % (bad[2] + 1) if bad[2] is not None else '', bad[3])), where=f.loc(f.body))
+
+
+def r9(ctx, prog):
+    """the public class is a handle: what the replay establishes for StateMachine::Impl holds for StateMachine only if every public operation hands its own
+    arguments to the operation of the same name of impl_ and returns what that returned"""
+    from tbxlint import q
+    from rules.C06_relay import _param_passthrough
+    SM = 'tbox::flow::StateMachine'
+    ctx.rule('C16.R9', 'A10 the public class relays: every operation of StateMachine (newState, addRoute, addEvent, setInitState, setSubStateMachine, setStateChangedCallback, start, stop, '
+             'run, currentState, lastState, nextState, isRunning, isTerminated) reaches the operation of the same name of its Impl on every path, with its own parameters in order, and '
+             'returns what that returned; restart() is stop() then start() and returns the answer of start()', floor=12)
+    impl_names = set(g.short.split('::')[-1] for g in prog.methods_of(I))
+    n = 0
+    for f in prog.methods_of(SM):
+        m = f.short.split('::')[-1]
+        if f.d.get('ctor') or f.d.get('dtor') or m.startswith('~') or f.body is None or m in ('toJson', 'setName', 'StateMachine') or f.parent_usr:
+            continue
+        if m == 'restart':
+            st = [c for c in f.calls() if c.get('fn') == 'stop' and (f.field_of(c.get('obj')) or '').endswith('impl_')]
+            sa = [c for c in f.calls() if c.get('fn') == 'start' and (f.field_of(c.get('obj')) or '').endswith('impl_')]
+            ok = bool(st) and bool(sa) and not f.cfg.exists_path(f.cfg.entry_point(), 'exit', avoid=q.pts(f, st)) and not f.cfg.exists_path(f.cfg.entry_point(), 'exit', avoid=q.pts(f, sa)) and \
+                all(q.must_precede(f, q.pts(f, st), q.pt(f, a)) for a in sa) and \
+                any(q.carries(f, r['val'], [c['i'] for c in sa]) for r in q.returns(f) if r.get('val') is not None)
+            n += 1
+            ctx.ob('C16.R9', '%s|stop-then-start' % f.name, ok, 'stops, then starts, and returns the answer of start()' if ok else
+                   'restart() does not stop the machine and then start it, returning the answer of start(), on every path', where=f.loc(f.body))
+            continue
+        if m not in impl_names:
+            continue
+        calls = [c for c in f.calls() if c.get('fn') == m and 'obj' in c and (f.field_of(c['obj']) or '').endswith('impl_')]
+        ok = bool(calls) and not f.cfg.exists_path(f.cfg.entry_point(), 'exit', avoid=q.pts(f, calls))
+        why = '%s() can return without calling impl_->%s()' % (m, m)
+        if ok:
+            ok = all(_param_passthrough(f, c) for c in calls)
+            why = '%s() does not pass its own parameters on, in order' % m
+        if ok and (f.d.get('rt') or f.d.get('ret') or 'void') != 'void':
+            rets = [r for r in q.returns(f) if r.get('val') is not None]
+            ok = bool(rets) and all(q.carries(f, r['val'], [c['i'] for c in calls]) for r in rets)
+            why = '%s() does not return what impl_->%s() returned' % (m, m)
+        n += 1
+        ctx.ob('C16.R9', '%s|relays' % f.name, ok, 'reaches impl_->%s() with its own parameters and returns its answer' % m if ok else
+               why + ': the behaviour established for the implementation is not the behaviour of the public class', where=f.loc(f.body))
